@@ -26,6 +26,8 @@ TRIAGE = [
     (r"^vm::compile::<Vm>::transform_procedure_application$", r"unwrap", "under rest.is_list(): Cell::is_list holds only for a non-empty proper list, which has a car and a cdr", r"cell::Cell::c[ad]r\(v:Cell\)"),
     (r"^number::approximate$", r"ratio", "arbitrary-precision rationals: the product cannot overflow, and the quotient is formed only in the arm "
      "whose guard found the divisor's numerator non-zero (the zero-divisor case takes the float arm below it)"),
+    (r"^vm::builtin::number::divide::\{closure#0\}$", r"ratio", "the closure divide hands to exact_result: its second argument is y as an "
+     "arbitrary-precision rational, and divide has returned its error for y.is_zero() before the call (to_big_rational preserves the value)"),
     (r"^vm::heap::payload$", r"DivisionByZero", "the divisor is size_of::<VCell>(), the size of a non-empty enum: not zero"),
     (r"^marwood_wasm::Marwood::autocomplete$", r"unwrap", "chars().last() of a text tested non-empty in the same condition (short-circuit `||`)", r"Chars.*last"),
     (r"^marwood_wasm::Marwood::eval$", r"index", INV_SPAN),
